@@ -105,14 +105,14 @@ fn eval_confirmed(
                 match w.eval(case, timeout_ms.saturating_mul(10)) {
                     EvalResult::Done(o) => return (o, true),
                     EvalResult::Hang => {}
-                    EvalResult::Crash(m) => return (crash_outcome(&m), false),
+                    EvalResult::Crash(m) => return (crash_outcome(prop, case, &m), false),
                 }
             }
             let mut o = Outcome::new();
             o.evals = 1;
             o.verdict = Verdict::violation(
                 "hang",
-                format!("hang:{}", prop.id()),
+                prop.abnormal_signature(case, "hang"),
                 format!(
                     "no answer within {} ms{}",
                     timeout_ms,
@@ -125,14 +125,14 @@ fn eval_confirmed(
             );
             (o, false)
         }
-        EvalResult::Crash(m) => (crash_outcome(&m), false),
+        EvalResult::Crash(m) => (crash_outcome(prop, case, &m), false),
     }
 }
 
-fn crash_outcome(m: &str) -> Outcome {
+fn crash_outcome(prop: &dyn Prop, case: &Value, m: &str) -> Outcome {
     let mut o = Outcome::new();
     o.evals = 1;
-    o.verdict = Verdict::violation("crash", "crash:worker-died", m.to_string());
+    o.verdict = Verdict::violation("crash", prop.abnormal_signature(case, "crash"), m.to_string());
     o
 }
 
